@@ -34,6 +34,7 @@ const (
 	KPtr // pointer to a local cell
 	KFunc
 	KQCmp // boolean "q S I" (S is the comparison operator, I the constant), possibly negated via flipped S
+	KQMask // integer q & I (q within 0..65535)
 )
 
 // AV is an abstract value.
@@ -48,6 +49,7 @@ type AV struct {
 	Cell   *int // index into path-local store
 	Sel    []FieldSel // for KPtr: field path inside the cell
 	Fn     *ssa.Function
+	Reg    IvSet  // KQCmp: explicit truth region of q (used for masked comparisons); KQMask: unused
 	Tag    string // free-form provenance tag (e.g. callee name for NonNil errors)
 }
 
@@ -139,6 +141,7 @@ type Outcome struct {
 	Trail   []string // decisions taken, for diagnostics
 	Notes   []string // notes recorded by the rule's OnCall hook along this path
 	Store   []AV     // the path-local store at the return (cells that KPtr results point into)
+	RetPos  token.Pos // position of the root function's return taken
 }
 
 // HasNote reports whether the path recorded the note.
@@ -184,6 +187,7 @@ type PEval struct {
 }
 
 type pstate struct {
+	retPos token.Pos
 	havocLoop map[*ssa.BasicBlock]bool // blocks of the loop whose re-entry switched havoc mode on
 	dead  bool     // the path hit a trap (nil dereference etc.) and ends here
 	notes []string // rule-defined path notes (see PEval.Note)
@@ -230,7 +234,7 @@ func (s *pstate) fork() *pstate {
 		parent = &envNode{m: flat}
 	}
 	s.env = &envNode{m: map[ssa.Value]AV{}, parent: parent, depth: parent.depth + 1}
-	n := &pstate{notes: append([]string(nil), s.notes...), havoc: s.havoc, havocLoop: s.havocLoop, q: s.q, env: &envNode{m: map[ssa.Value]AV{}, parent: parent, depth: parent.depth + 1}, store: append([]AV(nil), s.store...), trail: append([]string(nil), s.trail...)}
+	n := &pstate{retPos: s.retPos, notes: append([]string(nil), s.notes...), havoc: s.havoc, havocLoop: s.havocLoop, q: s.q, env: &envNode{m: map[ssa.Value]AV{}, parent: parent, depth: parent.depth + 1}, store: append([]AV(nil), s.store...), trail: append([]string(nil), s.trail...)}
 	return n
 }
 
@@ -269,7 +273,7 @@ func (ev *PEval) Run(fn *ssa.Function, args []AV) ([]Outcome, error) {
 	var outs []Outcome
 	s := &pstate{q: ev.Domain, env: &envNode{m: map[ssa.Value]AV{}}, store: append([]AV(nil), ev.InitStore...)}
 	ev.call(s, fn, args, 0, func(s *pstate, res []AV, pan bool) {
-		outs = append(outs, Outcome{Q: s.q, Results: res, Panic: pan, Trail: s.trail, Notes: s.notes, Store: s.store})
+		outs = append(outs, Outcome{Q: s.q, Results: res, Panic: pan, Trail: s.trail, Notes: s.notes, Store: s.store, RetPos: s.retPos})
 	})
 	if ev.Err != nil {
 		return nil, ev.Err
@@ -338,6 +342,10 @@ func (ev *PEval) block(s *pstate, fr *frame, b *ssa.BasicBlock, pred *ssa.BasicB
 				ev.paths++
 				ev.Truncated = true
 				n := fr.fn.Signature.Results().Len()
+				if s.havoc && s.havocLoop != nil && loopParent(s.havocLoop) == fr.fn {
+					s.havoc = false
+					s.havocLoop = nil
+				}
 				k(s, make([]AV, n), false)
 				return
 			}
@@ -380,18 +388,25 @@ func (ev *PEval) block(s *pstate, fr *frame, b *ssa.BasicBlock, pred *ssa.BasicB
 		case *ssa.If:
 			c := ev.val(s, x.Cond)
 			tb, fb := b.Succs[0], b.Succs[1]
-			if s.havoc {
-				ts := s.fork()
-				ev.block(ts, fr, tb, b, 0, k)
-				ev.block(s, fr, fb, b, 0, k)
-				return
-			}
 			if c.K == KBool {
 				if c.B {
 					ev.block(s, fr, tb, b, 0, k)
 				} else {
 					ev.block(s, fr, fb, b, 0, k)
 				}
+				return
+			}
+			if s.havoc {
+				// inside a re-entered loop q is not refined (constraints of different iterations
+				// would be conjoined); nil tests on values of this iteration still are
+				if ts, fs, ok := ev.splitNil(s, x.Cond); ok {
+					ev.block(ts, fr, tb, b, 0, k)
+					ev.block(fs, fr, fb, b, 0, k)
+					return
+				}
+				ts := s.fork()
+				ev.block(ts, fr, tb, b, 0, k)
+				ev.block(s, fr, fb, b, 0, k)
 				return
 			}
 			var ts, fs *pstate
@@ -426,6 +441,14 @@ func (ev *PEval) block(s *pstate, fr *frame, b *ssa.BasicBlock, pred *ssa.BasicB
 			res := make([]AV, len(x.Results))
 			for i, r := range x.Results {
 				res[i] = ev.val(s, r)
+			}
+			if fr.depth == 0 {
+				s.retPos = x.Pos()
+			}
+			if s.havoc && s.havocLoop != nil && loopParent(s.havocLoop) == fr.fn {
+				// returning from the function whose loop switched havoc mode on
+				s.havoc = false
+				s.havocLoop = nil
 			}
 			ev.emit(s, res, k)
 			return
@@ -497,6 +520,24 @@ func (ev *PEval) emit(s *pstate, res []AV, k cont) {
 	k(s, res, false)
 }
 
+// splitNil refines only nil tests (x == nil / x != nil) on values of unknown nil-ness.
+func (ev *PEval) splitNil(s *pstate, cond ssa.Value) (*pstate, *pstate, bool) {
+	bo, ok := cond.(*ssa.BinOp)
+	if !ok {
+		if u, ok := cond.(*ssa.UnOp); ok && u.Op == token.NOT {
+			t, f, ok := ev.splitNil(s, u.X)
+			return f, t, ok
+		}
+		return nil, nil, false
+	}
+	x, y := ev.val(s, bo.X), ev.val(s, bo.Y)
+	op := bo.Op.String()
+	if (op == "==" || op == "!=") && (x.K == KNil || y.K == KNil) {
+		return ev.split(s, cond)
+	}
+	return nil, nil, false
+}
+
 // split refines q along a comparison; returns (trueState, falseState, ok).
 func (ev *PEval) split(s *pstate, cond ssa.Value) (*pstate, *pstate, bool) {
 	bo, ok := cond.(*ssa.BinOp)
@@ -515,7 +556,7 @@ func (ev *PEval) split(s *pstate, cond ssa.Value) (*pstate, *pstate, bool) {
 		if x.K == KNil {
 			other, ov = bo.Y, y
 		}
-		if ov.K == KUnk {
+		if ev.nn(ov) == 0 {
 			ts, fs := s.fork(), s.fork()
 			if op == "==" {
 				ts.env.m[other] = AV{K: KNil}
@@ -572,7 +613,10 @@ func negOp(op string) string {
 
 // splitCmp refines q along a symbolic comparison value.
 func (ev *PEval) splitCmp(s *pstate, c AV) (*pstate, *pstate) {
-	reg := CmpRegion(c.S, c.I)
+	reg := c.Reg
+	if reg == nil {
+		reg = CmpRegion(c.S, c.I)
+	}
 	ts, fs := s.fork(), s.fork()
 	ts.q = s.q.Intersect(reg)
 	fs.q = s.q.Minus(reg)
@@ -945,6 +989,9 @@ func (ev *PEval) instr(s *pstate, fr *frame, v ssa.Value) AV {
 				return AV{K: KBool, B: !a.B}
 			}
 			if a.K == KQCmp {
+				if a.Reg != nil {
+					return AV{K: KQCmp, S: a.S, I: a.I, Reg: IvRange(0, 65535).Minus(a.Reg)}
+				}
 				return AV{K: KQCmp, S: negOp(a.S), I: a.I}
 			}
 		case token.SUB:
@@ -1129,6 +1176,28 @@ func (ev *PEval) binop(op token.Token, x, y AV, t types.Type) AV {
 			return AV{K: KBool, B: x.I >= y.I}
 		}
 		return AV{}
+	}
+	if x.K == KInt && y.K == KQ && op == token.AND {
+		x, y = y, x
+	}
+	if x.K == KQ && x.I == 0 && y.K == KInt && op == token.AND && y.I >= 0 && y.I <= 65535 {
+		return AV{K: KQMask, I: y.I}
+	}
+	if x.K == KInt && y.K == KQMask {
+		x, y = y, x
+	}
+	if x.K == KQMask && y.K == KInt && (op == token.EQL || op == token.NEQ) {
+		var reg IvSet
+		for q := int64(0); q <= 65535; q++ {
+			if (q&x.I == y.I) == (op == token.EQL) {
+				if n := len(reg); n > 0 && reg[n-1].Hi == q-1 {
+					reg[n-1].Hi = q
+				} else {
+					reg = append(reg, Iv{q, q})
+				}
+			}
+		}
+		return AV{K: KQCmp, S: "mask", I: x.I, Reg: reg}
 	}
 	if x.K == KQ && y.K == KInt {
 		switch op {
